@@ -898,7 +898,7 @@ impl DcpsDomainParticipant {
                                         .find(|(x, _)| x == discovered_type_information)
                                 {
                                     match &discovered_type_information.1 {
-                                        DiscoveredTypeRepresentationState::Requested => return,
+                                        DiscoveredTypeRepresentationState::Requested => continue,
                                         DiscoveredTypeRepresentationState::Discovered(
                                             type_object,
                                         ) => match &type_object {
@@ -978,7 +978,7 @@ impl DcpsDomainParticipant {
                                             DiscoveredTypeRepresentationState::Requested,
                                         ));
                                     }
-                                    return;
+                                    continue;
                                 }
                             }
                             _ => {
@@ -1458,7 +1458,7 @@ impl DcpsDomainParticipant {
                                         .find(|(x, _)| x == discovered_type_information)
                                 {
                                     match &discovered_type_information.1 {
-                                        DiscoveredTypeRepresentationState::Requested => return,
+                                        DiscoveredTypeRepresentationState::Requested => continue,
                                         DiscoveredTypeRepresentationState::Discovered(
                                             type_object,
                                         ) => match &type_object {
@@ -1537,7 +1537,7 @@ impl DcpsDomainParticipant {
                                             DiscoveredTypeRepresentationState::Requested,
                                         ));
                                     }
-                                    return;
+                                    continue;
                                 }
                             }
                             _ => {
